@@ -33,13 +33,19 @@ Act(e) == CASE e.a = "enq" -> Enq(e.c) [] e.a = "reg" -> Reg(e.c) [] e.a = "wake
             [] e.a = "arrive" -> Arrive(D(e))
             [] e.a = "check" -> (Check(D(e)) /\ (dpc'[D(e)] # "dropped") = e.found)
             [] e.a = "notify" -> Notify(D(e)) [] e.a = "waitstop" -> WaitStop(D(e)) [] e.a = "pop" -> Pop(D(e))
+\* the dispatcher of a repeated copy whose waiter has been unregistered by the other copy leaves the registry alone (it removes
+\* the entry only while it is the waiter it found): no registry operation is observed, the model's Pop is a silent no-op there
+SilentPop == \E d \in Disp : Pop(d) /\ d[1] \notin pending /\ UNCHANGED <<tid, l>>
 TraceNext == \/ /\ l < Len(Traces[tid]) /\ l' = l + 1 /\ tid' = tid /\ Act(Traces[tid][l + 1])
+             \/ SilentPop
              \/ /\ l = Len(Traces[tid]) /\ tid < Len(Traces) /\ tid' = tid + 1 /\ l' = 0
                 /\ cpc' = [c \in Callers |-> "start"] /\ dpc' = [d \in Disp |-> "idle"] /\ queued' = {} /\ pending' = {}
                 /\ recvEv' = [c \in Callers |-> FALSE] /\ stopEv' = [c \in Callers |-> FALSE]
                 /\ pmsg' = [c \in Callers |-> 0] /\ got' = [c \in Callers |-> 0]
 TraceSpec == TraceInit /\ [][TraceNext]_<<vars, tid, l>>
-Progress == TLCSet(1, <<tid, l>>)
+ASSUME TLCSet(1, <<0, 0>>)
+Later(a, b) == a[1] > b[1] \/ (a[1] = b[1] /\ a[2] > b[2])
+Progress == IF Later(<<tid, l>>, TLCGet(1)) THEN TLCSet(1, <<tid, l>>) ELSE TRUE
 Accepted == PrintT(<<"PROGRESS", TLCGet(1), Len(Traces), Len(Traces[Len(Traces)])>>)
 ====
 """
@@ -209,7 +215,15 @@ def run_once(seed, K, dup, router_cls=c13.Router):
             from bromelia.base import DiameterAnswer
             from bromelia.avps import ResultCodeAVP
             ans = DiameterAnswer(header=reqs[k - 1].header, avps=[ResultCodeAVP(2001)])
-            if (seed + k) % 3 == 0:
+            shape = (seed // 7 + k) % 4
+            if shape in (1, 2):
+                # answers as peers really send them: an Experimental-Result and no Result-Code (3GPP application errors), or neither;
+                # decoded from their bytes
+                from bromelia.base import DiameterMessage
+                from bromelia.avps import ExperimentalResultAVP, ExperimentalResultCodeAVP, VendorIdAVP, OriginHostAVP
+                body = [ExperimentalResultAVP([VendorIdAVP(10415), ExperimentalResultCodeAVP(5001)])] if shape == 1 else [OriginHostAVP("peer.example")]
+                ans = DiameterMessage.load(DiameterAnswer(header=reqs[k - 1].header, avps=body).dump())[0]
+            elif (seed + k) % 3 == 0:
                 # the match is by Hop-by-Hop: an answer that does not echo the End-to-End still belongs to the caller
                 import copy as _copy
                 ans = DiameterAnswer(header=_copy.deepcopy(reqs[k - 1].header), avps=[ResultCodeAVP(2001)])
@@ -261,14 +275,17 @@ def run(rep):
         raise tlc.TlcError("vacuity self-test: queue-then-register does not violate NoLostWake")
     rep.notes["queue_then_register_violates"] = "NoLostWake"
     # retransmission of the same request object (spec/Resend.tla): unregister-then-wake is safe, wake-then-unregister loses the second wake-up
-    for pf, expect in (("TRUE", None), ("FALSE", "NoLostWake")):
-        r3, _ = tlc.run("Resend", f"SPECIFICATION Spec\nCONSTANT PopFirst = {pf}\nINVARIANT NoLostWake\nPROPERTY BothReturn\n", workers=2, timeout=600, deadlock=True)
+    for pf, dp, ident, expect in (("TRUE", "FALSE", "TRUE", None), ("TRUE", "TRUE", "TRUE", None), ("FALSE", "FALSE", "FALSE", "NoLostWake"),
+                                  ("TRUE", "TRUE", "FALSE", "NoLostWake")):
+        r3, _ = tlc.run("Resend", f"SPECIFICATION Spec\nCONSTANTS PopFirst = {pf}\n Dup = {dp}\n PopByIdentity = {ident}\nINVARIANT NoLostWake\nPROPERTY BothReturn\n",
+                        workers=2, timeout=600, deadlock=True)
         if expect is None:
             tlc.must_ok(r3, "Resend")
-            rep.tlc("Resend PopFirst=TRUE", r3)
+            rep.tlc(f"Resend PopFirst={pf} Dup={dp} PopByIdentity={ident}", r3)
         elif r3.violated != expect:
-            raise tlc.TlcError(f"vacuity self-test: wake-then-unregister does not violate {expect} in Resend.tla (got {r3.violated})")
+            raise tlc.TlcError(f"vacuity self-test: Resend.tla with PopFirst={pf} Dup={dp} PopByIdentity={ident} does not violate {expect} (got {r3.violated})")
     rep.notes["wake_then_unregister_violates"] = "NoLostWake (Resend.tla)"
+    rep.notes["unregister_by_key_with_a_repeated_answer_violates"] = "NoLostWake (Resend.tla)"
     rng = random.Random(rep.seed * 7919 + 14)
     nruns = 300 if rep.tier == "quick" else 6000
     traces, metas = [], []
@@ -298,18 +315,32 @@ def run(rep):
     nres = 100 if rep.tier == "quick" else 2000
     for i in range(nres):
         seed = rng.getrandbits(30)
-        verdict, out = run_resend(seed)
+        verdict, out = run_resend(seed, dup=bool(i % 2))
         rep.case(("resend", i))
         if verdict:
-            rep.violation(verdict, {"kind": "resend", "seed": seed})
+            rep.violation(verdict, {"kind": "resend", "seed": seed, "dup": bool(i % 2)})
             break
     rep.notes["retransmission_runs"] = nres
+    # the dispatcher of a repeated answer held back at each of its source lines while the caller retransmits
+    for k in range(0, 45):
+        verdict, out = run_resend(7 + k, dup=True, victim_steps=k)
+        rep.case(("resend-sweep", k))
+        if verdict:
+            rep.violation(f"the dispatcher of the repeated answer stopped after {k} steps: " + verdict, {"kind": "resend", "seed": 7 + k, "dup": True, "victim_steps": k})
+            break
     for i in range(40 if rep.tier == "quick" else 800):
         seed = rng.getrandbits(30)
         verdict = run_two_interfaces(seed)
         rep.case(("two-interfaces", i))
         if verdict:
             rep.violation(verdict, {"kind": "two-interfaces", "seed": seed})
+            break
+    for i in range(30 if rep.tier == "quick" else 600):
+        seed = rng.getrandbits(30)
+        verdict = run_late_duplicate(seed)
+        rep.case(("late-duplicate", i))
+        if verdict:
+            rep.violation(verdict, {"kind": "late-duplicate", "seed": seed})
             break
     if traces:
         rep.sample({"trace_prefix": traces[0][:10]})
@@ -364,8 +395,8 @@ def replay(rep, path):
     if r.get("kind") == "stack":
         from . import stack
         return stack.replay(rep, r)
-    if r.get("kind") == "two-interfaces":
-        verdict = run_two_interfaces(r["seed"])
+    if r.get("kind") in ("two-interfaces", "late-duplicate"):
+        verdict = run_two_interfaces(r["seed"]) if r["kind"] == "two-interfaces" else run_late_duplicate(r["seed"])
         if verdict:
             rep.violation(verdict, r)
         rep.case(str(r))
@@ -373,7 +404,7 @@ def replay(rep, path):
         rep.sample(r)
         return rep.finish()
     if r.get("kind") == "resend":
-        verdict, out = run_resend(r["seed"])
+        verdict, out = run_resend(r["seed"], dup=r.get("dup", False), victim_steps=r.get("victim_steps"))
         if verdict:
             rep.violation(verdict, r)
         rep.case(str(r))
@@ -389,7 +420,7 @@ def replay(rep, path):
     return rep.finish()
 
 
-def run_resend(seed, router_cls=c13.Router):
+def run_resend(seed, router_cls=c13.Router, dup=False, victim_steps=None):
     """A retransmission: one caller sends the same request object twice, one after the other; every transmission is answered
     by the peer; both calls must return their answer.  (The second registration uses the same Hop-by-Hop key as the first.)"""
     from engine import vsched
@@ -430,12 +461,35 @@ def run_resend(seed, router_cls=c13.Router):
     def on_send(msg):
         nsent[0] += 1
         s.spawn(f"dispatcher{nsent[0]}", dispatcher, msg)
+        if dup and msg is req and nsent[0] <= 2 and not getattr(on_send, "repeated", False):
+            on_send.repeated = True                      # the peer repeats its first answer
+            s.spawn(f"dispatcher{nsent[0]}-repeated", dispatcher, msg)
     worker.app = AppProxy(worker.app, on_send)
     s.spawn("caller1", caller)
     s.spawn("caller2", caller2)
     handler = s.spawn("worker_send_handler", worker.send_handler)
     chooser = vsched.PCT(seed, depth=1 + seed % 3, horizon=250) if seed % 3 else None
     try:
+        if victim_steps is not None:
+            # one-preemption sweep: the dispatcher of the repeated answer runs `victim_steps` line-level steps and is then held
+            # back while everybody else goes on (the caller is woken by the other copy, returns and sends the same request again)
+            s.max_steps = 12000
+            s.run(until=lambda: any(t.name.endswith("-repeated") for t in s.threads))
+            vic = [t for t in s.threads if t.name.endswith("-repeated")][0]
+            n = 0
+            while n < victim_steps and not vic.done and s.enabled(vic) == "go":
+                s.step(vic)
+                n += 1
+            g = 0
+            while g < 4000:
+                go = [t for t in s.threads if t is not vic and t is not handler and s.enabled(t) == "go" and not s.is_idle(t)]
+                hgo = s.enabled(handler) == "go" and not s.is_idle(handler)
+                if not go and not hgo:
+                    break
+                s.step(go[0] if go else handler)
+                g += 1
+                if nsent[0] >= 3 and not go:
+                    break
         out = s.run(until=lambda: all(t.done for t in s.threads if t is not handler), chooser=chooser)
     except vsched.Deadlock as e:
         out = "deadlock: " + str(e)
@@ -444,8 +498,73 @@ def run_resend(seed, router_cls=c13.Router):
     dead = [(t.name, f"{type(t.exc).__name__}: {t.exc}") for t in s.threads if t.exc is not None]
     ok = len(results) == 3 and all(results) and not (isinstance(out, str) and out.startswith(("deadlock", "Step")))
     s.kill_all()
-    return (None if ok else f"retransmission: {sum(1 for r in results if r)} of 3 calls returned their answer ({out}); threads ended by exception: {dead}"), out
+    return (None if ok else f"retransmission{' (the first answer repeated by the peer)' if dup else ''}: {sum(1 for r in results if r)} of 3 calls returned their answer ({out}); threads ended by exception: {dead}"), out
 
+
+
+def run_late_duplicate(seed, router_cls=c13.Router):
+    """Two interfaces, one after the other: a request on the first is sent and answered; then a request with the SAME Hop-by-Hop is
+    outstanding on the second (identifiers are unique per connection only) when the peer of the first interface repeats its answer.
+    The repeated answer belongs to nobody and must be dropped; the second caller gets the answer of its own interface."""
+    from engine import vsched
+    import copy as _copy
+    from bromelia.base import DiameterAnswer
+    from bromelia.avps import ResultCodeAVP
+    s = vsched.new_sched(seed, max_steps=40000)
+    router = router_cls.__new__(router_cls)
+    c13.InProcessManager, saved_mgr = SchedManager, c13.InProcessManager
+    try:
+        router.__init__()
+    finally:
+        c13.InProcessManager = saved_mgr
+    app = router.app
+    rng = random.Random(seed)
+    r1 = c13.make_request("a1", "c1", 1, rng)
+    r2 = c13.make_request("a2", "c1", 2, rng)
+    r2.header.hop_by_hop = r1.header.hop_by_hop
+    results, hold = {}, {"second": False}
+
+    def caller(k, r):
+        results[k] = app.send_message(r)
+
+    def answer_of(r, code):
+        return DiameterAnswer(header=_copy.deepcopy(r.header), avps=[ResultCodeAVP(code)])
+
+    def on_send(msg):
+        if msg.header.application_id == r1.header.application_id:
+            s.spawn("dispatcher1", app.handler_pending_answers, answer_of(r1, 2001))
+        else:
+            hold["second"] = True          # the second interface's peer answers later
+    handlers = []
+    for key, w in {id(w): w for w in router.workers.values()}.items():
+        w.app = AppProxy(w.app, on_send)
+        handlers.append(s.spawn(f"send_handler{len(handlers)}", w.send_handler))
+    chooser = vsched.PCT(seed, depth=1 + seed % 3, horizon=250) if seed % 3 else None
+    problems = []
+    try:
+        c1 = s.spawn("caller1", caller, 1, r1)
+        s.run(until=lambda: c1.done, chooser=chooser)
+        c2 = s.spawn("caller2", caller, 2, r2)
+        s.run(until=lambda: hold["second"] and c2.pending is not None and c2.pending[0] == "wait", chooser=chooser)
+        d = s.spawn("dispatcher-duplicate", app.handler_pending_answers, answer_of(r1, 2001))
+        s.run(until=lambda: d.done, chooser=chooser)
+        if c2.done:
+            problems.append("the second caller was released by the repeated answer of the other interface")
+        else:
+            d2 = s.spawn("dispatcher2", app.handler_pending_answers, answer_of(r2, 2002))
+            s.run(until=lambda: c2.done and d2.done, chooser=chooser)
+    except vsched.Deadlock as e:
+        problems.append("deadlock: " + str(e)[:200])
+    except (vsched.StepLimit, vsched.StepHang) as e:
+        problems.append(type(e).__name__ + ": " + str(e)[:200])
+    a1, a2 = results.get(1), results.get(2)
+    if a1 is None or a1.header.application_id != r1.header.application_id:
+        problems.append("the first caller did not get the answer of its interface")
+    if not problems and (a2 is None or a2.header.application_id != r2.header.application_id or a2.result_code_avp.data != (2002).to_bytes(4, "big")):
+        problems.append(f"the second caller got {'nothing' if a2 is None else 'the answer of application ' + a2.header.application_id.hex()} instead of the answer "
+                        f"that arrived on its own interface")
+    s.kill_all()
+    return ("a repeated answer on one interface while the same Hop-by-Hop is outstanding on another: " + "; ".join(problems)) if problems else None
 
 
 def run_two_interfaces(seed, router_cls=c13.Router):
